@@ -65,6 +65,37 @@ CHECKS.update({
         "DESIGN.md section 3, C15"),
 })
 
+CHECKS.update({
+    "C02": (
+        "model_checking",
+        "exhaustive product exploration; per-result coordinate invariants "
+        "and re-resolution of every reported path on the real engine",
+        "Every non-virtual result of every query of the explored product "
+        "(documents <= N nodes + collision pack + documents keyed with every "
+        "escapable punctuation character x C01 paths plus keyword segments) "
+        "must satisfy parent[parentref] is node, an ancestry chain from the "
+        "root, an unshared path object, and its reported path must resolve "
+        "to exactly that node as printed and in the other notation.",
+        "virtual results are excluded as the property states; a hash holding "
+        "both 1 and '1' as keys is skipped (the path syntax cannot tell them "
+        "apart)",
+        "DESIGN.md section 3, C02"),
+    "C13": (
+        "model_checking",
+        "exhaustive enumeration of same-kind sequences and attribute "
+        "patterns against a definitional oracle",
+        "All sequences up to length L over three same-kind pools with nulls, "
+        "all Arrays-of-Hashes / hashes-of-hashes up to R records over the "
+        "attribute patterns {v1, v2, absent, null}, x 5 keywords x inversion "
+        "x parameter; parent(n) and name() at every position of every corpus "
+        "document for every n, and after every 1-segment path; compared with "
+        "the definitional oracle by node identity (order-free for inverted "
+        "max/min/unique, whose order the property does not state).",
+        "mixed-kind members, containers as members, empty or all-null lists "
+        "are left open by the documents and counted as unspecified",
+        "DESIGN.md section 3, C13"),
+})
+
 NOT_YET = {
 }
 
